@@ -172,7 +172,7 @@ theorem T_C09_alias_counterexample :
   constructor
   · unfold NoAlias; decide
   · simp only [applyE, applyL, RT.pt, Heap.get]
-    apply V3.ext' <;> (simp [RT.pt]; norm_num)
+    apply V3.ext' <;> (simp [RT.pt]; try norm_num)
 
 /-! ### T_C09_compose — transformation lists and default origins -/
 
